@@ -4,7 +4,7 @@ HARNESS = "harness/c11_hash.py"
 MODE = "src"
 EXHAUSTIVE = True      # the whole finite input space is one symbolic query family (decided, not enumerated)
 EXPLANATION = "One symbolic challenge over the whole three-byte field; non-linear integer arithmetic decided by z3, plus an 11-way linear case split as a second route."
-BOUNDS = {"quick": "all 253^3 = 16,194,277 challenges (whole field symbolic); range obligations over all challenges 0..11,092,110",
+BOUNDS = {"quick": "all 253^3 = 16,194,277 challenges (whole field symbolic); range obligations over all challenges 0..11,092,110; every ordered pair of challenges hashed one after the other in one process (both symbolic)",
           "thorough": "same domain; additionally the 11-way case split on (challenge+1) mod 11 re-decides the obligation with constant divisors"}
 OUTSIDE = "challenges outside the three-byte field"
 ASSUMPTIONS = ["the game client's arithmetic is the published formula with C-style truncating remainder (O-hash)"]
@@ -16,7 +16,8 @@ def jobs(tier):
 
 def _jobs(tier):
     js = [dict(name="client_arithmetic", fn="client_arithmetic", args=[], collect_models=3, expect=["hash equals the client's truncating arithmetic"]),
-          dict(name="documented_range", fn="documented_range", args=[], collect_models=3, expect=["non-negative up to the documented bound"])]
+          dict(name="documented_range", fn="documented_range", args=[], collect_models=3, expect=["non-negative up to the documented bound"]),
+          dict(name="two_calls", fn="two_calls", args=[], collect_models=2, expect=["second hash in a process equals the client's arithmetic"])]
     if tier == "thorough":
         for r in range(11):
             js.append(dict(name=f"split[{r}]", fn="client_arithmetic_split", args=[r], collect_models=1))
